@@ -6,7 +6,7 @@ layer is modelled as the identity on JSON values: dumps_model applies MbEncoder.
 would (on non-JSON objects), loads_model applies object_hook bottom-up to every dict, as the real decoder does.
 """
 from vlib.runner import CheckSpec, Cube
-from vlib.sym import assume, choose
+from vlib.sym import assume, choose, in_alphabet
 
 
 def _mods():
@@ -18,6 +18,15 @@ def _mods():
         if not hasattr(myjson, a):
             raise RuntimeError("stub target myjson.%s is gone" % a)
     return metabook, myjson
+
+
+def _nserve():
+    import mwlib.core.metabook  # noqa: F401
+    from mwlib.core import nserve
+
+    if not hasattr(nserve, "make_collection_id") or not hasattr(nserve, "sha256"):
+        raise RuntimeError("stub target nserve.make_collection_id / nserve.sha256 is gone")
+    return nserve
 
 
 def dumps_model(obj):
@@ -141,6 +150,168 @@ def h_distinct(which: int, t0: str, t1: str, tnew: str, r0: int, rnew: int, hr0:
     return None
 
 
+# ---------------------------------------------------------------------------- collection id (pre-image of the hash)
+
+ID_ALPHABET = "'\"\\a"  # both quote characters, the backslash (repr's escape) and a letter
+
+
+class _Pre:
+    """stands for sha256(...) inside nserve.make_collection_id: keeps the hashed text so that two requests can be compared
+    on the pre-image (equal pre-image <=> equal id, sha256 assumed collision-free)"""
+
+    def __init__(self, pre):
+        self.pre = pre
+
+    def hexdigest(self):
+        return self
+
+    def __getitem__(self, k):
+        return self
+
+
+class _NullOut:
+    def write(self, s):
+        pass
+
+    def flush(self):
+        pass
+
+
+_MBS = []
+
+
+def metabook_texts():
+    """[(json text or None, equivalence class)]: same class = same metabook content in another JSON spelling"""
+    if _MBS:
+        return _MBS
+    import json as pyjson
+
+    metabook, myjson = _mods()
+
+    def mk(items, **kw):
+        c = metabook.Collection(**kw)
+        for it in items:
+            if isinstance(it, tuple):
+                c.append_article(it[0], revision=it[1])
+            elif it.startswith("#"):
+                c.items.append(metabook.Chapter(title=it[1:]))
+            else:
+                c.append_article(it)
+        return c.dumps()
+
+    a = mk(["A"])
+    plain = pyjson.loads(a)
+
+    def respell(v, rev):
+        if isinstance(v, dict):
+            ks = sorted(v, reverse=rev)
+            return {k: respell(v[k], rev) for k in ks}
+        if isinstance(v, list):
+            return [respell(x, rev) for x in v]
+        return v
+
+    _MBS.extend([
+        (None, 0),
+        (a, 1),
+        (pyjson.dumps(respell(plain, True), separators=(",", ":")), 1),   # reversed key order, no whitespace
+        (pyjson.dumps(respell(plain, False), indent=1), 1),               # other indentation
+        (myjson.loads(a).dumps(), 1),                                      # re-serialized
+        (mk([("A", 5)]), 2),                                               # a pinned revision
+        (mk(["B"]), 3),
+        (mk(["A", "B"]), 4),
+        (mk(["B", "A"]), 5),
+        (mk(["#A", "B"]), 6),                                              # B inside chapter A
+        (mk(["A"], title="t"), 7),
+    ])
+    # attributes the classes do not declare (kept by MetabookObject): their order in the text must not matter either
+    extra = pyjson.loads(a)
+    extra["zz_extra"] = 1
+    extra["aa_extra"] = 2
+    extra["items"][0]["zz_note"] = "n"
+    extra["items"][0]["aa_note"] = "m"
+    _MBS.extend([(pyjson.dumps(respell(extra, False)), 8), (pyjson.dumps(respell(extra, True)), 8)])
+    return _MBS
+
+
+def collection_id_preimage(b, e, l, has_l, m):
+    import sys
+
+    from mwlib.core import nserve
+
+    data = {"base_url": b, "script_extension": e}
+    if has_l:
+        data["login_credentials"] = l
+    txt = metabook_texts()[m][0]
+    if txt is not None:
+        data["metabook"] = txt
+    old, old_out = nserve.sha256, sys.stdout
+    nserve.sha256 = _Pre
+    sys.stdout = _NullOut()
+    try:
+        return nserve.make_collection_id(data).pre
+    finally:
+        nserve.sha256 = old
+        sys.stdout = old_out
+
+
+def h_collid_one(b: str, e: str, l: str, hl: bool, m: int, x: str, hx: bool, mx: int, which: int):
+    """two requests that differ in at most one field (base_url / script_extension / login / metabook):
+    the hashed text is the same iff the field has the same value (same metabook content for the metabook)"""
+    for s_ in (b, e, x):
+        assume(len(s_) <= 2 and in_alphabet(s_, ID_ALPHABET))
+    assume(len(l) <= 1 and in_alphabet(l, ID_ALPHABET))
+    mbs = metabook_texts()
+    if not hl:
+        assume(l == "")
+    # only the field under test (and its replacement) ranges freely; the others are fixed or tiny (field boundaries have their own cubes)
+    if which == 0:
+        assume(e == "" and not hl and m == 1)
+        r1 = [b, e, "", False, 1]
+        r2 = [x, e, "", False, 1]
+        same = x == b
+    elif which == 1:
+        assume(b == "a" and not hl and m == 1)
+        r1 = ["a", e, "", False, 1]
+        r2 = ["a", x, "", False, 1]
+        same = x == e
+    elif which == 2:
+        assume(b == "a" and e == "" and m == 1 and len(x) <= 1)
+        if not hx:
+            assume(x == "")
+        r1 = ["a", "", l, hl, 1]
+        r2 = ["a", "", x, hx, 1]
+        same = (x == l and hx == hl)
+    else:
+        assume(len(b) <= 1 and e == "" and not hl and x == "" and not hx)
+        m = choose(m, len(mbs))
+        mx = choose(mx, len(mbs))
+        r1 = [b, "", "", False, m]
+        r2 = [b, "", "", False, mx]
+        same = mbs[mx][1] == mbs[m][1]
+    p1 = collection_id_preimage(*r1)
+    p2 = collection_id_preimage(*r2)
+    if (p1 == p2) != same:
+        return {"sig": "collection-id|" + ("differs-for-equal-requests" if same else "same-for-different-requests") + "|" + ["base_url", "script_extension", "login", "metabook"][which],
+                "r1": r1, "r2": r2}
+    return None
+
+
+def h_collid_split(u1: str, v1: str, u2: str, v2: str, pair: int):
+    """two adjacent fields both vary (base_url+script_extension / script_extension+login): the field boundary is part of the id"""
+    for s_ in (u1, v1, u2, v2):
+        assume(len(s_) <= 1 and in_alphabet(s_, ID_ALPHABET))
+    if pair == 0:
+        r1, r2 = ["a" + u1, v1, "", False, 1], ["a" + u2, v2, "", False, 1]
+    else:
+        r1, r2 = ["a", u1, v1, True, 1], ["a", u2, v2, True, 1]
+    same = (u1 == u2 and v1 == v2)
+    p1 = collection_id_preimage(*r1)
+    p2 = collection_id_preimage(*r2)
+    if (p1 == p2) != same:
+        return {"sig": "collection-id|same-for-different-requests|field-boundary", "r1": r1, "r2": r2}
+    return None
+
+
 def twin_nested(n: int, k0: int, k1: int):
     """Reachability: a chapter with an article inside is built and survives the round trip"""
     metabook, _ = _mods()
@@ -160,17 +331,27 @@ def build(tier: str) -> CheckSpec:
          "hr0": bool, "hr1": bool, "hr2": bool, "d0": bool, "d1": bool, "d2": bool, "extra_val": str, "ctitle": str}
     cubes = [Cube("round trip, 0..3 items", h_roundtrip, p, {}, timeout=tmo, per_path_timeout=30, group="roundtrip"),
              Cube("distinct collections", h_distinct, {"which": int, "t0": str, "t1": str, "tnew": str, "r0": int, "rnew": int, "hr0": bool}, {}, timeout=tmo, group="distinct"),
-             Cube("twin: nested chapter", twin_nested, {"n": int, "k0": int, "k1": int}, {}, timeout=60, role="twin")]
+             ] + [Cube(f"collection id: requests differing in {n}", h_collid_one, {"b": str, "e": str, "l": str, "hl": bool, "m": int, "x": str, "hx": bool, "mx": int},
+                       {"which": w}, timeout=tmo, per_path_timeout=30, group="collection-id") for w, n in enumerate(["base_url", "script_extension", "login", "metabook"])
+             ] + [Cube(f"collection id: field boundary {n}", h_collid_split, {"u1": str, "v1": str, "u2": str, "v2": str}, {"pair": w}, timeout=tmo, per_path_timeout=30,
+                       group="collection-id") for w, n in enumerate(["base_url|script_extension", "script_extension|login"])
+             ] + [Cube("twin: nested chapter", twin_nested, {"n": int, "k0": int, "k1": int}, {}, timeout=60, role="twin")]
     return CheckSpec(
         property_id="C13",
         level="other",
         cubes=cubes,
-        functions=[metabook.MetabookObject.__init__, metabook.MetabookObject._json, myjson.object_hook, myjson.MbEncoder.default, metabook.Collection.walk],
+        functions=[metabook.MetabookObject.__init__, metabook.MetabookObject._json, myjson.object_hook, myjson.MbEncoder.default, metabook.Collection.walk,
+                   _nserve().make_collection_id, metabook.calc_checksum, metabook.Collection.dumps],
         bounds={"items": "0..3, each an article / a chapter opening (following articles nest into it) / an article with an unknown extra attribute",
-                "titles": "symbolic strings <= 3 chars", "revisions": "symbolic ints, present or absent", "displaytitle": "present or absent"},
-        stubs=["JSON text layer (simplejson C encoder/decoder) modelled as the identity on JSON values: dumps_model / loads_model call MbEncoder.default and object_hook exactly where the real codec does"],
-        assumptions=["simplejson renders and parses JSON values faithfully", "equality of metabooks = same classes, order, nesting and attribute values"],
-        outside=["key order / whitespace invariance of the text, sort_keys, SHA-256 and its truncation, make_collection_id's repr() concatenation (C code / hashing: not executable symbolically)"],
+                "titles": "symbolic strings <= 3 chars", "revisions": "symbolic ints, present or absent", "displaytitle": "present or absent",
+                "collection id": "pairs of requests that differ in at most one of base_url / script_extension (symbolic strings <= 2 chars over %r, the other fields fixed), login_credentials (absent or <= 1 char), "
+                                 "metabook (13 JSON texts in 9 content classes: key order, whitespace, re-serialization, undeclared attributes, revision, title, order, chapter nesting, collection title); "
+                                 "pairs where two adjacent fields both vary (<= 1 char each; field boundary)" % ID_ALPHABET},
+        stubs=["nserve.sha256 -> object that keeps the hashed text (ids are compared on the pre-image); sys.stdout silenced inside make_collection_id",
+               "JSON text layer (simplejson C encoder/decoder) modelled as the identity on JSON values: dumps_model / loads_model call MbEncoder.default and object_hook exactly where the real codec does"],
+        assumptions=["simplejson renders and parses JSON values faithfully", "sha256 is collision-free on the texts compared (the replay compares real ids)", "equality of metabooks = same classes, order, nesting and attribute values"],
+        outside=["SHA-256 itself and its truncation to 16 hex digits", "metabook texts other than the 13 listed (the checksum is a hash of a concrete text on every path)",
+                 "requests that differ in several non-adjacent fields at once"],
         explanation="bounded symbolic execution of the object <-> JSON-value mapping on collections with symbolic shape, titles, revisions and optional fields: "
         "round trip, fixed point, per-instance defaults and value-level injectivity",
         replay=replay,
@@ -198,6 +379,33 @@ def replay(cand: dict) -> dict:
         if ok:
             return {"reproduced": False, "what": "real myjson round trip is a fixed point for this collection"}
         return {"reproduced": True, "signature": "C13|roundtrip", "what": f"myjson.loads(myjson.dumps(c)) differs: {s1[:200]!r} -> {s2[:200]!r}"}
+    if cand["fn"] in ("h_collid_one", "h_collid_split"):
+        d = cand.get("concrete", {}).get("detail") or {}
+        if "r1" not in d:
+            return {"reproduced": False, "error": "no concrete detail"}
+        nserve = _nserve()
+        import sys
+        ids = []
+        for r in (d["r1"], d["r2"]):
+            data = {"base_url": r[0], "script_extension": r[1]}
+            if r[3]:
+                data["login_credentials"] = r[2]
+            txt = metabook_texts()[r[4]][0]
+            if txt is not None:
+                data["metabook"] = txt
+            old = sys.stdout
+            sys.stdout = _NullOut()
+            try:
+                ids.append(nserve.make_collection_id(data))
+            finally:
+                sys.stdout = old
+        want_same = "differs-for-equal" in d["sig"]
+        got_same = ids[0] == ids[1]
+        if got_same == want_same:
+            return {"reproduced": False, "what": f"real ids {ids} behave as required"}
+        return {"reproduced": True, "signature": "C13|" + d["sig"],
+                "what": f"nserve.make_collection_id gives {ids[0]} and {ids[1]} for requests {d['r1'][:4]}+metabook#{d['r1'][4]} and {d['r2'][:4]}+metabook#{d['r2'][4]}"
+                        + (" (same content, different id)" if want_same else " (different requests, same id)")}
     r = h_distinct(**{k: a[k] for k in ("which", "t0", "t1", "tnew", "r0", "rnew", "hr0")})
     if r is None:
         return {"reproduced": False, "what": "values differ on the real classes"}
